@@ -924,7 +924,7 @@ def rule_forvec(text):
     for v in sorted(_FORVEC):
         while True:
             m = mask(text)
-            mm = re.search(r"for\s+(\w+)\s+in\s+%s\s*\{" % re.escape(v), m)
+            mm = re.search(r"for\s+(\w+|\([\w\s,]*\))\s+in\s+%s\s*\{" % re.escape(v), m)
             if not mm:
                 break
             new = "let mut %s_q_ = VecQueue::new(%s); while let Some(%s) = %s_q_.pop_front() {" % (v, v, mm.group(1), v)
@@ -1060,13 +1060,14 @@ def rule_updmisc(text):
     table = [
         (r"std\s*::\s*ptr\s*::\s*eq\s*\(\s*(\w+)\s*,\s*(\w+)\s*\.\s*as_ref\s*\(\s*\)\s*\)", r"record_ptr_eq(\1, &\2)", "R-ptreq", "shim: pointer identity (an opaque boolean)"),
         (r"Some\s*\(\s*ref\s+(\w+)\s*\)\s*=\s*([\w.]+)\s*\{", r"Some(\1) = \2.as_ref() {", "R-refpat", "`Some(ref x) = e` binds a reference into e: same as matching e.as_ref()"),
-        (r"\b(value|key)\s*\.\s*to_vec\s*\(\s*\)", r"slice_to_vec_u8(\1)", "R-vec", "shim: <[u8]>::to_vec copies the bytes"),
+        (r"\b(value|key|new_value)\s*\.\s*to_vec\s*\(\s*\)", r"slice_to_vec_u8(\1)", "R-vec", "shim: <[u8]>::to_vec copies the bytes"),
         (r"Arc\s*::\s*ptr_eq\s*\(", "arc_ptr_eq(", "R-ptreq", "shim: pointer identity of two Arcs (an opaque relation)"),
         (r"std\s*::\s*time\s*::\s*Instant\s*::\s*now\s*\(\s*\)", "instant_now()", "R-instant", "shim: reading the monotonic clock for latency statistics"),
         (r"(\w+)\s*\.\s*elapsed\s*\(\s*\)\s*\.\s*as_nanos\s*\(\s*\)\s*as\s+u64", r"elapsed_nanos(&\1)", "R-instant", "shim: elapsed nanoseconds for latency statistics"),
         (r"(self\s*\.\s*write_buffer)\s*\.\s*as_ref\s*\(\s*\)\s*\.\s*filter\s*\(\s*\|\s*_\s*\|\s*([^()|]*?)\s*\)\s*\.\s*map\s*\(\s*\|\s*_\s*\|\s*(Arc::clone\(&\w+\))\s*\)",
          r"(if \1.is_some() && \2 { Some(\3) } else { None })", "R-optgate", "definition of Option::filter + Option::map with closures that ignore their argument"),
-        (r"crate\s*::\s*test_hooks\s*::\s*pause_at\s*\([^()]*\)\s*;", "", "R-hook", "dropped: test-only pause hook"),
+        (r"(?:#\[cfg\(test\)\]\s*)?crate\s*::\s*test_hooks\s*::\s*pause_at\s*\([^()]*\)\s*;", "", "R-hook", "dropped: test-only pause hook"),
+        (r"let\s+mut\s+rng\s*=\s*rand\s*::\s*rng\s*\(\s*\)\s*;", "let mut rng = rng_handle();", "R-rng", "shim: the thread-local random generator (used only to pick sample candidates)"),
         (r"\.\s*read\s*\(\s*key\s*,\s*\|\s*_\s*,\s*v\s*\|\s*v\s*\.\s*clone\s*\(\s*\)\s*\)", ".read_arc(key)", "R-hread", "shim: the lookup closure only clones the Arc it is handed"),
     ]
     for pat, rep, rname, why in table:
